@@ -24,7 +24,9 @@ var defPort = map[string]string{"http": "80", "https": "443", "ws": "80", "wss":
 
 // host as written -> host as it must appear
 var hostForms = [][2]string{{"a", "a"}, {"example.com", "example.com"}, {"EXAMPLE.Com", "example.com"}, {"h.example.org", "h.example.org"},
-	{"é.com", "xn--9ca.com"}, {"bücher.example", "xn--bcher-kva.example"}, {"127.0.0.1", "127.0.0.1"}, {"[::1]", "[::1]"}, {"xn--9ca.com", "xn--9ca.com"}}
+	{"é.com", "xn--9ca.com"}, {"bücher.example", "xn--bcher-kva.example"}, {"127.0.0.1", "127.0.0.1"}, {"[::1]", "[::1]"}, {"xn--9ca.com", "xn--9ca.com"},
+	// upper-case letters outside ASCII: the host is lower-cased as a whole before it is converted (expected forms from the punycode of the lower-case name)
+	{"É.com", "xn--9ca.com"}, {"BÜCHER.example", "xn--bcher-kva.example"}, {"Ä.Example", "xn--4ca.example"}, {"XN--9CA.com", "xn--9ca.com"}}
 var users = []string{"", "", "", "u@", "u:p@", "a.b:c-d@"}
 var segs = []string{"a", "b", "c", "dd", "x.y", "~t", "a-b_c", "g;x=1", "p,q", "a=b", "$&'()*+", "%41", "%C3%A9", "é", "日本", "a%20b", ".x", "x.", "..y", "...", "a:b", "@v"}
 var queries = []string{"q", "a=1&b=2", "x=%20y", "é=ü", "a/b/../c", "k=v?w", ""}
